@@ -1,0 +1,58 @@
+//go:build verif
+
+package mysql
+
+// Verification hooks (build tag `verif` only): accessors for unexported parts of the MySQL packet
+// and result-set handling so that an external harness can drive the real code.
+// Nothing here changes behaviour; the file is not compiled without the tag.
+
+import (
+	"context"
+
+	"github.com/sirupsen/logrus"
+
+	"github.com/cossacklabs/acra/decryptor/base"
+	base_mysql "github.com/cossacklabs/acra/decryptor/mysql/base"
+	"github.com/cossacklabs/acra/encryptor/base/config"
+)
+
+// VerifNewHandler returns a Handler with only the parts the row processors use: a logger and a
+// column decryption observer with the given subscribers (in order).
+func VerifNewHandler(logger *logrus.Entry, subscribers ...base.DecryptionSubscriber) *Handler {
+	h := &Handler{logger: logger, decryptionObserver: base.NewColumnDecryptionObserver(), protocolState: NewProtocolState(),
+		registry: NewPreparedStatementRegistry()}
+	for _, s := range subscribers {
+		h.SubscribeOnAllColumnsDecryption(s)
+	}
+	return h
+}
+
+// VerifProcessTextDataRow runs processTextDataRow.
+func (handler *Handler) VerifProcessTextDataRow(ctx context.Context, rowData []byte, fields []*ColumnDescription) ([]byte, error) {
+	return handler.processTextDataRow(ctx, rowData, fields)
+}
+
+// VerifProcessBinaryDataRow runs processBinaryDataRow.
+func (handler *Handler) VerifProcessBinaryDataRow(ctx context.Context, rowData []byte, fields []*ColumnDescription) ([]byte, error) {
+	return handler.processBinaryDataRow(ctx, rowData, fields)
+}
+
+// VerifSetCurrentCommand sets the command byte that selects text or binary row processing.
+func (handler *Handler) VerifSetCurrentCommand(cmd byte) { handler.currentCommand = cmd }
+
+// VerifNewPacket builds a Packet from a 4-byte header and a payload.
+func VerifNewPacket(header, data []byte) *Packet { return &Packet{header: header, data: data} }
+
+// VerifHeader returns the packet header.
+func (packet *Packet) VerifHeader() []byte { return packet.header }
+
+// VerifReplaceQuery runs replaceQuery.
+func (packet *Packet) VerifReplaceQuery(newQuery string) { packet.replaceQuery(newQuery) }
+
+// VerifUpdateFieldEncodedType runs updateFieldEncodedType (column description rewrite by the schema store).
+func VerifUpdateFieldEncodedType(field *ColumnDescription, schemaStore config.TableSchemaStore) {
+	updateFieldEncodedType(field, schemaStore)
+}
+
+// VerifChanged returns the changed flag and the origin type of a column description.
+func (field *ColumnDescription) VerifChanged() (bool, base_mysql.Type) { return field.changed, field.originType }
